@@ -366,7 +366,7 @@ fn block_check_unit<const N: usize, const METHOD: u8>() {
     vcover!(!ok, "check_rejected");
 }
 
-//@ harness props=C03,C06,C18,C07 tier=quick unwind=8 unwindset=default_read_exact:4,flush_zero_padding:4,block_header_unit:10 mem_gb=6 timeout=600
+//@ harness props=C03,C06,C18,C07 tier=quick unwind=8 unwindset=default_read_exact:4,flush_zero_padding:10,block_header_unit:10 mem_gb=6 timeout=600
 //@ bound: read_block_header directly: flags 0x00 (concrete layout), 3 padding bytes; size values, filter id (<0x80), property byte and padding bytes symbolic
 #[cfg_attr(kani, kani::proof)]
 #[cfg_attr(kani, kani::stub(std::fmt::format, crate::verif_common::stub_format))]
@@ -375,7 +375,7 @@ pub fn xzblk_header_f00_p3() {
     block_header_unit::<0, 3>()
 }
 
-//@ harness props=C03,C06,C18,C07 tier=quick unwind=8 unwindset=default_read_exact:4,flush_zero_padding:4,block_header_unit:10 mem_gb=6 timeout=600
+//@ harness props=C03,C06,C18,C07 tier=quick unwind=8 unwindset=default_read_exact:4,flush_zero_padding:10,block_header_unit:10 mem_gb=6 timeout=600
 //@ bound: read_block_header directly: flags 0xc0 (concrete layout), 1 padding bytes; size values, filter id (<0x80), property byte and padding bytes symbolic
 #[cfg_attr(kani, kani::proof)]
 #[cfg_attr(kani, kani::stub(std::fmt::format, crate::verif_common::stub_format))]
@@ -384,7 +384,7 @@ pub fn xzblk_header_fc0_p1() {
     block_header_unit::<192, 1>()
 }
 
-//@ harness props=C03,C06,C18,C07 tier=quick unwind=8 unwindset=default_read_exact:4,flush_zero_padding:4,block_header_unit:10 mem_gb=6 timeout=600
+//@ harness props=C03,C06,C18,C07 tier=quick unwind=8 unwindset=default_read_exact:4,flush_zero_padding:10,block_header_unit:10 mem_gb=6 timeout=600
 //@ bound: read_block_header directly: flags 0x40 (concrete layout), 2 padding bytes; size values, filter id (<0x80), property byte and padding bytes symbolic
 #[cfg_attr(kani, kani::proof)]
 #[cfg_attr(kani, kani::stub(std::fmt::format, crate::verif_common::stub_format))]
@@ -393,7 +393,7 @@ pub fn xzblk_header_f40_p2() {
     block_header_unit::<64, 2>()
 }
 
-//@ harness props=C03,C06,C18,C07 tier=quick unwind=8 unwindset=default_read_exact:4,flush_zero_padding:4,block_header_unit:10 mem_gb=6 timeout=600
+//@ harness props=C03,C06,C18,C07 tier=quick unwind=8 unwindset=default_read_exact:4,flush_zero_padding:10,block_header_unit:10 mem_gb=6 timeout=600
 //@ bound: read_block_header directly: flags 0x80 (concrete layout), 6 padding bytes; size values, filter id (<0x80), property byte and padding bytes symbolic
 #[cfg_attr(kani, kani::proof)]
 #[cfg_attr(kani, kani::stub(std::fmt::format, crate::verif_common::stub_format))]
@@ -402,7 +402,7 @@ pub fn xzblk_header_f80_p6() {
     block_header_unit::<128, 6>()
 }
 
-//@ harness props=C03,C06,C18,C07 tier=quick unwind=8 unwindset=default_read_exact:4,flush_zero_padding:4,block_header_unit:10 mem_gb=6 timeout=600 opt_covers=bh_ok,unknown_filter_rejected,nonzero_padding_rejected
+//@ harness props=C03,C06,C18,C07 tier=quick unwind=8 unwindset=default_read_exact:4,flush_zero_padding:10,block_header_unit:10 mem_gb=6 timeout=600 opt_covers=bh_ok,unknown_filter_rejected,nonzero_padding_rejected
 //@ bound: read_block_header directly: flags 0x04 (concrete layout), 3 padding bytes; size values, filter id (<0x80), property byte and padding bytes symbolic
 #[cfg_attr(kani, kani::proof)]
 #[cfg_attr(kani, kani::stub(std::fmt::format, crate::verif_common::stub_format))]
@@ -411,7 +411,7 @@ pub fn xzblk_header_f04_p3() {
     block_header_unit::<4, 3>()
 }
 
-//@ harness props=C03,C06,C18,C07 tier=quick unwind=8 unwindset=default_read_exact:4,flush_zero_padding:4,block_header_unit:10 mem_gb=6 timeout=600 opt_covers=bh_ok,unknown_filter_rejected,nonzero_padding_rejected
+//@ harness props=C03,C06,C18,C07 tier=quick unwind=8 unwindset=default_read_exact:4,flush_zero_padding:10,block_header_unit:10 mem_gb=6 timeout=600 opt_covers=bh_ok,unknown_filter_rejected,nonzero_padding_rejected
 //@ bound: read_block_header directly: flags 0x20 (concrete layout), 3 padding bytes; size values, filter id (<0x80), property byte and padding bytes symbolic
 #[cfg_attr(kani, kani::proof)]
 #[cfg_attr(kani, kani::stub(std::fmt::format, crate::verif_common::stub_format))]
@@ -420,7 +420,7 @@ pub fn xzblk_header_f20_p3() {
     block_header_unit::<32, 3>()
 }
 
-//@ harness props=C03,C06,C18,C07 tier=quick unwind=8 unwindset=default_read_exact:4,flush_zero_padding:4,block_header_unit:10 mem_gb=6 timeout=600 opt_covers=bh_ok,unknown_filter_rejected,nonzero_padding_rejected
+//@ harness props=C03,C06,C18,C07 tier=quick unwind=8 unwindset=default_read_exact:4,flush_zero_padding:10,block_header_unit:10 mem_gb=6 timeout=600 opt_covers=bh_ok,unknown_filter_rejected,nonzero_padding_rejected
 //@ bound: read_block_header directly: flags 0x01 (concrete layout), 3 padding bytes; size values, filter id (<0x80), property byte and padding bytes symbolic
 #[cfg_attr(kani, kani::proof)]
 #[cfg_attr(kani, kani::stub(std::fmt::format, crate::verif_common::stub_format))]
